@@ -12,7 +12,7 @@ import (
 
 func main() {
 	core.Main("DEV", func(c *core.Ctx) {
-		for _, f := range families.All(len(os.Args) > 3) {
+		for _, f := range append(families.All(len(os.Args) > 3), families.Deep(len(os.Args) > 3)...) {
 			if f.Name != os.Args[len(os.Args)-1] {
 				continue
 			}
